@@ -30,6 +30,11 @@ FITTED = "<fitted>"
 
 def _success_expr(node) -> bool:
     """expression whose truthiness means success is present and truthy"""
+    if isinstance(node, ast.BoolOp) and isinstance(node.op, ast.And):
+        return any(_success_expr(v) for v in node.values)
+    if isinstance(node, ast.Call) and isinstance(node.func, ast.Name) and \
+            node.func.id == "bool" and len(node.args) == 1:
+        return _success_expr(node.args[0])
     if isinstance(node, ast.Subscript) and const_str(node.slice) == \
             "success" and "fit_properties" in norm(node.value):
         return True
